@@ -154,18 +154,42 @@ Definition samples_of (c : case) : list qsample :=
 
     The checker works with the exact rational sample weights; the code compares f32 running sums
     (class tables filled in row order, `weight_on_right_side -= w`, `weight_on_left_side += w`).
-    When every weight is a multiple of 1/4 up to 2^14 and n <= 2^8, every partial sum is an integer
-    number of quarter units not above 2^24, hence exact in binary32, and nothing is allowed.  Otherwise each running sum
+    When all weights are integer multiples of one power of two 2^e (e >= -126: no subnormals) and
+    their sum is at most 2^24 * 2^e, every partial sum the code forms (sums and differences of
+    subsets, all between 0 and the total) is an integer number of units 2^e not above 2^24, hence
+    exact in binary32, and nothing is allowed ([exact_sums]; unit weights, the dyadic streams and
+    all their power-of-two rescalings fall here, whatever the scale).  Otherwise each running sum
     of at most n operations is within n * 2^-24 (1 + o(1)) of the exact sum, relative to the weight
     of the node it belongs to: the stated allowance is n * 2^-23 of the node's weight for
     min_weight_leaf and for the leaf majority, and [dec_slack_factor] * n * 2^-23 on top of 2^-18
     for the reported impurity decrease (calibrated: the harness reports the worst observed error in
-    these units, `worst_decrease_error_beyond_2p-18_in_permille_of_n_2p-23`). *)
-Definition dyadic_weight (w : float) : bool :=
-  let q := Qred (f64_Q w * 4) in
-  Z.eqb (Zpos (Qden q)) 1 && Qleb 0 q && Qleb q 65536.
+    these units, `worst_decrease_error_beyond_2p-18_in_permille_of_n_2p-23`).  The allowance is
+    RELATIVE to the node's weight: it does not grow when all weights are tiny. *)
+Fixpoint pos_v2 (p : positive) : Z :=
+  match p with xO p' => (1 + pos_v2 p')%Z | _ => 0%Z end.
+(** 2-adic valuation of a positive finite float ([None]: zero, negative or non-finite) *)
+Definition w_val2 (w : float) : option Z :=
+  match Prim2SF w with
+  | S754_finite false m e => Some (e + pos_v2 m)%Z
+  | _ => None
+  end.
+Definition w_nonneg_finite (w : float) : bool :=
+  match Prim2SF w with
+  | S754_zero _ | S754_finite false _ _ => true
+  | _ => false
+  end.
+Definition min_val2 (ws : list float) : option Z :=
+  fold_left (fun acc w => match w_val2 w, acc with
+                          | Some v, Some a => Some (Z.min v a)
+                          | Some v, None => Some v
+                          | None, _ => acc
+                          end) ws None.
 Definition exact_sums (c : case) : bool :=
-  forallb dyadic_weight (c_w c) && Nat.leb (length (c_X c)) 256.
+  forallb w_nonneg_finite (c_w c) &&
+  match min_val2 (c_w c) with
+  | None => true                                            (* all weights zero *)
+  | Some e => Z.leb (-126) e && Qleb (Qsum (map f64_Q (c_w c))) (16777216 * Qpow2 e)%Q
+  end.
 Definition wslack (c : case) : Q :=
   if exact_sums c then 0%Q else (inject_Z (Z.of_nat (length (c_X c))) / 8388608)%Q.
 Definition dec_slack_factor : Q := 2%Q.
